@@ -33,7 +33,7 @@ def gc_m(a: Tuple[float, float], b: Tuple[float, float]) -> float:
 
 @st.composite
 def st_graph(draw, min_nodes: int = 4, max_nodes: int = 12, varied_speed: bool = True, arbitrary_lengths: bool = False,
-             scales: Tuple[int, ...] = (1,)) -> Dict[str, Any]:
+             scales: Tuple[int, ...] = (1,), block_times: bool = False) -> Dict[str, Any]:
     n = draw(st.integers(min_nodes, max_nodes))
     side = math.ceil(math.sqrt(n))
     jit = st.integers(-8, 8)
@@ -61,6 +61,11 @@ def st_graph(draw, min_nodes: int = 4, max_nodes: int = 12, varied_speed: bool =
         stretch = draw(st.sampled_from([0.3, 0.6, 1.0, 1.0, 1.1, 1.3, 1.6, 2.5] if arbitrary_lengths else [1.0, 1.0, 1.1, 1.3, 1.6]))
         speed = draw(st.sampled_from(SPEEDS + [None])) if varied_speed else draw(st.sampled_from([40, None]))
         e = [100 + a, 100 + b, round(base * stretch, 3), speed]
+        if block_times:
+            # a regular city: every link takes a whole multiple of 15 s at a whole number of m/s, so journeys between
+            # junctions end exactly when a time step ends (the boundary case of every arrival rule)
+            ms = draw(st.sampled_from([5, 10, 10, 15, 20]))
+            e = [100 + a, 100 + b, ms * draw(st.sampled_from([15, 30, 30, 45, 60, 90])) + 0.01, ms * 3.6]
         if arbitrary_lengths and draw(st.sampled_from([False, False, True])):
             # an explicit travel_time attribute (as in the shipped Denver file), not necessarily length / speed
             e.append(round(base / 1000.0 / (speed or 40) * 3600.0 * draw(st.sampled_from([0.5, 1.0, 2.0])), 3))
@@ -172,6 +177,9 @@ st_where = st.sampled_from(["start", "end", "mid", 0.1, 0.25, 0.5, 0.75, 0.9])
 def st_position(n_links_hint: int = 1000):
     return st.one_of(
         st.tuples(st.just("link"), st.integers(0, n_links_hint), st_where).map(list),
+        # where a vehicle stands after it ran out of time inside a link: the cell of the point interpolated between the
+        # link's end cells in (lat, lon), which need not be a cell of the link's grid line
+        st.tuples(st.just("along"), st.integers(0, n_links_hint), st.integers(1, 99)).map(list),
         st.tuples(st.just("cell"), st.integers(0, 300), st.integers(0, 300)).map(lambda t: ["cell", round(LAT0 - 0.002 + t[1] * 0.00008, 6), round(LON0 - 0.002 + t[2] * 0.00008, 6)]),
     )
 
@@ -195,6 +203,9 @@ def resolve_position(rn, spec):
         return rn.position_from_geoid(h3.geo_to_h3(spec[1], spec[2], rn.sim_h3_resolution))
     links = sorted_links(rn)
     l = links[spec[1] % len(links)]
+    if spec[0] == "along":
+        (la0, lo0), (la1, lo1), f = h3.h3_to_geo(l.start), h3.h3_to_geo(l.end), spec[2] / 100.0
+        return EntityPosition(l.link_id, h3.geo_to_h3(la0 + (la1 - la0) * f, lo0 + (lo1 - lo0) * f, h3.h3_get_resolution(l.start)))
     line = h3.h3_line(l.start, l.end)
     w = spec[2]
     if w == "start":
